@@ -37,6 +37,16 @@ pub fn pad_frame(b: &mut Vec<u8>, extra: usize) {
 	}
 }
 
+/// Bytes that follow a handshake header announcing more than its limit: must stay unread.
+pub const TAIL: usize = 40;
+
+/// Replace the frame by its 11 header bytes announcing `over` body bytes, followed by TAIL bytes.
+pub fn announce(b: &mut Vec<u8>, over: u64) {
+	b.truncate(11);
+	b[3..11].copy_from_slice(&over.to_be_bytes());
+	b.extend(std::iter::repeat(0xee).take(TAIL));
+}
+
 fn write_split(s: &mut TcpStream, b: &[u8], at: usize) -> std::io::Result<()> {
 	let at = at.min(b.len());
 	s.set_nodelay(true)?;
@@ -85,7 +95,7 @@ fn learn_nonce(hs: &Handshake) -> Result<u64, String> {
 	Ok(nonce)
 }
 
-fn accept_case(rv: u32, same: bool, in_ring: bool, cut: usize, extra: usize) -> Result<Value, String> {
+fn accept_case(rv: u32, same: bool, in_ring: bool, cut: usize, extra: usize, over: Option<u64>) -> Result<Value, String> {
 	let hs = Handshake::new(genesis(true), P2PConfig::default());
 	let nonce = if in_ring { learn_nonce(&hs)? } else { 0x1234_5678_9abc_def0 };
 	let l = TcpListener::bind("127.0.0.1:0").map_err(|e| e.to_string())?;
@@ -104,6 +114,9 @@ fn accept_case(rv: u32, same: bool, in_ring: bool, cut: usize, extra: usize) -> 
 		};
 		let mut b = msg_bytes(Type::Hand, hand, rv);
 		pad_frame(&mut b, extra);
+		if let Some(o) = over {
+			announce(&mut b, o);
+		}
 		write_split(&mut s, &b, cut).map_err(|e| e.to_string())?;
 		let _ = s.set_read_timeout(Some(Duration::from_secs(10)));
 		match read_message::<Shake, _>(&mut s, ProtocolVersion(rv.min(1000)), Type::Shake) {
@@ -112,9 +125,12 @@ fn accept_case(rv: u32, same: bool, in_ring: bool, cut: usize, extra: usize) -> 
 		}
 	});
 	let (mut conn, _) = l.accept().map_err(|e| e.to_string())?;
+	crate::alloc_track::reset();
 	let r = catch_unwind(AssertUnwindSafe(|| {
 		hs.accept(Capabilities::UNKNOWN, Difficulty::min_dma(), &mut conn)
 	}));
+	let alloc = crate::alloc_track::max_request();
+	let unread = settle_unread(&conn, over);
 	drop(conn);
 	let wire = peer.join().map_err(|_| "peer panicked".to_string())??;
 	let mut v = match r {
@@ -122,10 +138,27 @@ fn accept_case(rv: u32, same: bool, in_ring: bool, cut: usize, extra: usize) -> 
 		Err(_) => json!({"res": "panic", "version": 0}),
 	};
 	v["wire"] = wire;
+	v["alloc"] = json!(alloc);
+	v["unread"] = json!(unread);
 	Ok(v)
 }
 
-fn initiate_case(rv: u32, same: bool, cut: usize, extra: usize) -> Result<Value, String> {
+/// What is left in the socket behind a refused header (the peer wrote TAIL bytes behind it in the
+/// same or the following segment: give them a moment to arrive).
+fn settle_unread(conn: &TcpStream, over: Option<u64>) -> i32 {
+	if over.is_none() {
+		return -1;
+	}
+	let t0 = std::time::Instant::now();
+	let mut n = crate::run::unread(conn);
+	while n < TAIL as i32 && t0.elapsed() < Duration::from_secs(3) {
+		thread::sleep(Duration::from_millis(2));
+		n = crate::run::unread(conn);
+	}
+	n
+}
+
+fn initiate_case(rv: u32, same: bool, cut: usize, extra: usize, over: Option<u64>) -> Result<Value, String> {
 	let hs = Handshake::new(genesis(true), P2PConfig::default());
 	let l = TcpListener::bind("127.0.0.1:0").map_err(|e| e.to_string())?;
 	let addr = l.local_addr().map_err(|e| e.to_string())?;
@@ -142,10 +175,18 @@ fn initiate_case(rv: u32, same: bool, cut: usize, extra: usize) -> Result<Value,
 		};
 		let mut b = msg_bytes(Type::Shake, shake, rv);
 		pad_frame(&mut b, extra);
+		if let Some(o) = over {
+			announce(&mut b, o);
+		}
 		write_split(&mut s, &b, cut).map_err(|e| e.to_string())?;
+		// keep the socket until the other side has decided (it looks at what is left unread)
+		let _ = s.set_read_timeout(Some(Duration::from_secs(10)));
+		let mut buf = [0u8; 64];
+		let _ = std::io::Read::read(&mut s, &mut buf);
 		Ok(json!({"hand_version": hand.version.value(), "genesis_ok": hand.genesis == genesis(true)}))
 	});
 	let mut conn = TcpStream::connect(addr).map_err(|e| e.to_string())?;
+	crate::alloc_track::reset();
 	let r = catch_unwind(AssertUnwindSafe(|| {
 		hs.initiate(
 			Capabilities::UNKNOWN,
@@ -154,12 +195,17 @@ fn initiate_case(rv: u32, same: bool, cut: usize, extra: usize) -> Result<Value,
 			&mut conn,
 		)
 	}));
+	let alloc = crate::alloc_track::max_request();
+	let unread = settle_unread(&conn, over);
+	drop(conn);
 	let wire = peer.join().map_err(|_| "peer panicked".to_string())??;
 	let mut v = match r {
 		Ok(r) => classify(&r),
 		Err(_) => json!({"res": "panic", "version": 0}),
 	};
 	v["wire"] = wire;
+	v["alloc"] = json!(alloc);
+	v["unread"] = json!(unread);
 	Ok(v)
 }
 
@@ -358,10 +404,14 @@ pub fn run(args: &Args) -> i32 {
 		let in_ring = c["nonce_in_ring"].as_bool().unwrap();
 		let role = c["role"].as_str().unwrap();
 		let extra = c["extra"].as_u64().unwrap_or(0) as usize;
-		let cut = 1 + (i * 7) % 60;
+		let over: Option<u64> = match c["over"].as_str() {
+			Some(w) if !w.is_empty() => Some(w.parse().expect("over")),
+			_ => None,
+		};
+		let cut = if over.is_some() { 1 + (i * 7) % 10 } else { 1 + (i * 7) % 60 };
 		let obs = match role {
-			"accept" => accept_case(rv, same, in_ring, cut, extra),
-			_ => initiate_case(rv, same, cut, extra),
+			"accept" => accept_case(rv, same, in_ring, cut, extra, over),
+			_ => initiate_case(rv, same, cut, extra, over),
 		};
 		executed += 1;
 		let obs = match obs {
@@ -390,6 +440,18 @@ pub fn run(args: &Args) -> i32 {
 				&& !(obs["wire"]["hand_version"] == json!(local) && obs["wire"]["genesis_ok"] == json!(true))
 			{
 				bad = Some(("hand", format!("hand on the wire {}", obs["wire"])));
+			}
+		} else if eres == "toolarge" {
+			// a header announcing more than the limit of Hand / Shake: refused on the 11 header bytes,
+			// nothing of what follows read, nothing sized by the announced length
+			if ores == "ok" || ores == "panic" {
+				bad = Some(("accepted", format!("header announcing {} body bytes: {} returned {}", c["over"], role, ores)));
+			} else if obs["alloc"].as_u64().unwrap_or(0) > (1 << 20) {
+				bad = Some(("alloc", format!("{} bytes requested in one allocation while refusing a header announcing {}", obs["alloc"], c["over"])));
+			} else if obs["unread"].as_i64().unwrap_or(-1) != TAIL as i64 {
+				bad = Some(("body_read", format!("{} of the {} bytes behind the refused header are left in the socket", obs["unread"], TAIL)));
+			} else if role == "accept" && obs["wire"]["shake"] == json!(true) {
+				bad = Some(("shake_on_refusal", format!("{}", obs["wire"])));
 			}
 		} else if eres == "badlen" {
 			// a Hand / Shake body longer than the message: any refusal will do
